@@ -45,10 +45,10 @@ def gen_packages(run, n):
         name = "g%03d" % len(pkgs)
         style = run.rng.random()
         opts = {}
-        if style < 0.15:
+        if style < 0.12:
             opts = dict(p_embed=0.0, p_generic=0.3)
-        elif style < 0.65:
-            opts = dict(p_embed=0.95, nstructs=run.rng.choice([3, 4, 5]))
+        elif style < 0.72:
+            opts = dict(p_embed=0.95, nstructs=run.rng.choice([3, 4, 4, 5, 5]))     # chains: several embedded interfaces
         else:
             opts = dict(p_embed=0.8)
         fatal = run.rng.random() < 0.04
@@ -481,7 +481,7 @@ def main(run):
     outcome = run.replay_findings(finding_handlers(run, shoot, accbin))
     run.log("findings replayed")
 
-    npk = 600 if run.thorough() else 40
+    npk = 600 if run.thorough() else 50
     pkgs, gstats = gen_packages(run, npk)
     obs, mod = observe(run, shoot, accbin, "c03mod", pkgs)
     pkgdefs, rendered = render_cases(pkgs, obs)
